@@ -147,6 +147,11 @@ def _detect_alleles(variants, var_progress, first, bam_read):
                 break
 
             ref_len = len(variants[var_id].reference_allele)
+            # Special case: An insertion located exactly at the first aligned base lies in front of
+            # the alignment. The read carries no evidence about it (unless it starts with an I-Op)
+            if ref_len == 0 and cigar_op != 1 and var_pos == bam_read.reference_start:
+                j += 1
+                continue
             # Special case: If a non-insertion variant is seen by I-Op, continue with next Op
             # It is an insertion in front of a non-insertion variant, that must be ignored
             # We cannot skip I-Op in general, because this might overlook insertion variants
